@@ -16,7 +16,7 @@ PROPS = {
         "thorough_wall": 2400,
         # (a share of sessions mixes scope registrations with insert_at at
         # the same place: registration order across the two kinds of request)
-        "params": {"other_sect_p": 0.06, "isa_weights": [75, 15, 10], "scope_session_p": 0.12, "constraints_p": 0.1},
+        "params": {"other_sect_p": 0.06, "isa_weights": [75, 15, 10], "scope_session_p": 0.12, "constraints_p": 0.1, "extern_p": 0.08},
         "rule": "seeded scenarios (random module + 1-3 sessions of insert/replace/delete requests) executed against the real "
         "library and the listing model; distinct = distinct (module, sessions) digest; non-trivial = at least one "
         "modification was registered",
@@ -33,7 +33,7 @@ PROPS = {
         "thorough_runs": 300000,
         "quick_wall": 240,
         "thorough_wall": 2400,
-        "params": {"zero_hist_p": 0.06, "other_sect_p": 0.06, "isa_weights": [75, 15, 10], "end_label_p": 0.45, "delblock_p": 0.3, "constraints_p": 0.1},
+        "params": {"zero_hist_p": 0.06, "other_sect_p": 0.06, "isa_weights": [75, 15, 10], "end_label_p": 0.45, "delblock_p": 0.3, "constraints_p": 0.1, "extern_p": 0.08},
         "rule": "seeded scenarios biased to several start/at_end labels per block and whole-block deletions; distinct = "
         "distinct (module, sessions) digest; non-trivial = at least one modification was registered",
         "real_vs_stub": RW_REAL,
@@ -48,7 +48,7 @@ PROPS["C03"] = {
     "thorough_runs": 300000,
     "quick_wall": 240,
     "thorough_wall": 2400,
-    "params": {"zero_hist_p": 0.06, "isa_weights": [75, 15, 10], "constraints_p": 0.1},
+    "params": {"zero_hist_p": 0.06, "isa_weights": [75, 15, 10], "constraints_p": 0.1, "extern_p": 0.1},
     "rule": "seeded scenarios (random module with per-instruction-consistent CFG + 1-3 sessions of edits with patches made of "
     "plain/jmp/jcc/call/ret/indirect instructions and labels); distinct = distinct (module, sessions) digest; "
     "non-trivial = at least one modification was registered",
@@ -81,7 +81,7 @@ PROPS["C05"] = {
     "thorough_runs": 75000,
     "quick_wall": 240,
     "thorough_wall": 2400,
-    "params": {"allow_target_on_data": True, "zero_hist_p": 0.06, "other_sect_p": 0.06, "isa_weights": [75, 15, 10], "annot_p": 0.2, "allow_fall_off": True, "delblock_p": 0.25},
+    "params": {"allow_target_on_data": True, "zero_hist_p": 0.06, "other_sect_p": 0.06, "isa_weights": [75, 15, 10], "annot_p": 0.2, "allow_fall_off": True, "delblock_p": 0.25, "extern_p": 0.1},
     "rule": "seeded scenarios as for C01; after every session the whole-IR validator (blocks in intervals, no overlap of new blocks, "
     "every node in CFG / symbols / expressions / any aux table is in the module, zero-sized blocks only in documented cases, "
     "addresses, protobuf round trip); then, per scenario with N patch callbacks, N more executions from a fresh build with an "
@@ -104,7 +104,7 @@ PROPS["C06"] = {
     "thorough_runs": 450000,
     "quick_wall": 240,
     "thorough_wall": 2400,
-    "params": {"allow_target_on_data": True, "zero_hist_p": 0.06, "other_sect_p": 0.06, "isa_weights": [75, 15, 10], "delblock_p": 0.35, "insfn_p": 0.2, "constraints_p": 0.1},
+    "params": {"allow_target_on_data": True, "zero_hist_p": 0.06, "other_sect_p": 0.06, "isa_weights": [75, 15, 10], "delblock_p": 0.35, "insfn_p": 0.2, "constraints_p": 0.1, "extern_p": 0.08},
     "rule": "seeded scenarios with 0-4 functions (adjacent, interleaved with function-less code and data), edits at function "
     "boundaries, whole-function deletion, deletion of entry blocks and of the promoted block, inserted functions; distinct = "
     "(module, sessions) digest; non-trivial = at least one modification registered",
@@ -204,7 +204,7 @@ PROPS["C11"] = {
     "thorough_runs": 45000,
     "quick_wall": 300,
     "thorough_wall": 2400,
-    "params": {"isa_weights": [75, 15, 10], "k": 4, "insfn_p": 0.05, "constraints_p": 0.3, "repeat_p": 0.08, "no_temp_refs": True},
+    "params": {"isa_weights": [75, 15, 10], "k": 4, "insfn_p": 0.05, "constraints_p": 0.3, "repeat_p": 0.08, "no_temp_refs": True, "extern_p": 0.1},
     "thorough_params": {"k": 8},
     "rule": "each seeded scenario is executed under K schedules (quick K=4, thorough K=8): fresh UUID stream, fresh node-hash salt "
     "(= iteration order of every set/dict of gtirb nodes), another PYTHONHASHSEED (helper interpreters), and a permuted "
@@ -262,7 +262,7 @@ PROPS["C13"] = {
     "thorough_runs": 120000,
     "quick_wall": 240,
     "thorough_wall": 2400,
-    "params": {"other_sect_p": 0.06, "isa_weights": [75, 15, 10], "same_patch_p": 0.8, "asm_half": 50, "avoid_known": 0.8},
+    "params": {"other_sect_p": 0.06, "isa_weights": [75, 15, 10], "same_patch_p": 0.8, "asm_half": 50, "avoid_known": 0.8, "extern_p": 0.15},
     "rule": "two kinds of seeded runs, half each. (asmsim) an assembly text of 2-10 lines (instructions, labels, temporary labels, "
     "data directives, section switches, references to module symbols / externs / own earlier labels) is assembled whole and in "
     "EVERY split into consecutive chunks (all 2^k cut sets for up to 8 line boundaries, 64 sampled beyond; cuts that would make a "
